@@ -434,36 +434,121 @@ def rule_blacklist(ctx):
             okk = all(tt[(bl, chk)] == ((not bl) or chk) for bl, chk in tt)
     ctx.ob("FileSet.find.filter_keep", okk, "kept iff %s" % fact, "not black_list or _check_file(black_list, file.attr)", node=gen[0] if gen else f.node, func=f)
     c = ctx.func(FILESET, "FileSet._check_file")
-    body = [norm(s) for s in c.body]
     bl, ph = c.params[0], c.params[1]
+    fact, okc = _check_file_table(c, bl, ph)
+    ctx.ob("FileSet._check_file", okc, fact, "False only when a forbidden regex matches the file's WHOLE value of that placeholder (fullmatch, as the white list selects whole values); absent placeholders are skipped; True otherwise", node=c.node, func=c)
+
+
+class _Crash(Exception):
+    pass
+
+
+def _check_file_table(c, bl, ph):
+    """reduce _check_file to `rejected iff some entry (k, rx) of the black list satisfies R(k, rx)` and decide R by a truth table
+    over the states of the file's value for k (absent / None / a string) and of the regex methods on it"""
     lp = [s for s in c.body if isinstance(s, ast.For)]
-    okc = False
-    if lp and len(c.body) == 2 and norm(c.body[1]) == "return True":
-        lb = [norm(s) for s in lp[0].body]
-        okc = norm(lp[0].iter) == "%s.items()" % bl and lb == ["value = %s.get(placeholder, None)" % ph, "if value is None:\n    continue", "if forbidden.fullmatch(value):\n    return False"]
-        if not okc and lb[:2] == ["value = %s.get(placeholder, None)" % ph, "if value is None:\n    continue"] and lb[2:] == ["if forbidden.match(value):\n    return False"]:
-            body = body + ["[re.match anchors only the beginning: the value 'NOAA18' is rejected by the forbidden value 'NOAA1']"]
+    if lp and len(c.body) == 2 and c.body[0] is lp[0] and norm(c.body[1]) == "return True" and not lp[0].orelse:
+        loop = lp[0]
+        it, target = loop.iter, loop.target
+        env, conds, reject = {}, [], None
+
+        def sub(e):
+            from ..normalize import _Subst, clone
+            return _Subst(dict(env)).visit(clone(e))
+        for st in loop.body:
+            if isinstance(st, ast.Assign) and len(st.targets) == 1 and isinstance(st.targets[0], ast.Name):
+                env[st.targets[0].id] = sub(st.value)
+            elif isinstance(st, ast.If) and not st.orelse and len(st.body) == 1 and isinstance(st.body[0], ast.Continue):
+                conds.append(ast.UnaryOp(op=ast.Not(), operand=sub(st.test)))
+            elif isinstance(st, ast.If) and not st.orelse and len(st.body) == 1 and norm(st.body[0]) == "return False" and reject is None:
+                reject = ast.BoolOp(op=ast.And(), values=conds + [sub(st.test)]) if conds else sub(st.test)
+            elif isinstance(st, ast.If) and not st.orelse and reject is None and len(st.body) == 1 and isinstance(st.body[0], ast.If) \
+                    and not st.body[0].orelse and len(st.body[0].body) == 1 and norm(st.body[0].body[0]) == "return False":
+                reject = ast.BoolOp(op=ast.And(), values=conds + [sub(st.test), sub(st.body[0].test)])
+            else:
+                raise AnalysisError("_check_file: loop statement not understood: %s" % norm(st)[:80])
+        if reject is None:
+            raise AnalysisError("_check_file: the loop never returns False")
     elif not lp and len(c.body) == 1 and isinstance(c.body[0], ast.Return):
-        # one expression: not any(rx.match(ph[k]) for k, rx in bl.items() if ph.get(k) is not None)
         v = c.body[0].value
         neg = isinstance(v, ast.UnaryOp) and isinstance(v.op, ast.Not)
         inner = v.operand if neg else v
-        if isinstance(inner, ast.Call) and dotted(inner.func) in ("any", "all") and len(inner.args) == 1 and isinstance(inner.args[0], (ast.GeneratorExp, ast.ListComp)) \
-                and len(inner.args[0].generators) == 1:
-            g = inner.args[0].generators[0]
-            if not (isinstance(g.target, ast.Tuple) and len(g.target.elts) == 2 and all(isinstance(e, ast.Name) for e in g.target.elts)):
-                raise AnalysisError("_check_file: comprehension target not understood")
-            k_, rx_ = [e.id for e in g.target.elts]
-            present = [norm(i).replace(" ", "") for i in g.ifs]
-            elt = norm(inner.args[0].elt).replace(" ", "")
-            ok_present = present in (["%s.get(%s)isnotNone" % (ph, k_)], ["%s.get(%s,None)isnotNone" % (ph, k_)], ["%sin%s" % (k_, ph), "%s[%s]isnotNone" % (ph, k_)])
-            ok_elt = elt in ("%s.fullmatch(%s[%s])" % (rx_, ph, k_), "%s.fullmatch(%s.get(%s))" % (rx_, ph, k_), "%s.fullmatch(%s.get(%s,None))" % (rx_, ph, k_))
-            okc = dotted(inner.func) == "any" and neg and norm(g.iter) == "%s.items()" % bl and ok_present and ok_elt
-        else:
+        if not (isinstance(inner, ast.Call) and dotted(inner.func) in ("any", "all") and len(inner.args) == 1 and not inner.keywords
+                and isinstance(inner.args[0], (ast.GeneratorExp, ast.ListComp)) and len(inner.args[0].generators) == 1):
             raise AnalysisError("_check_file: single return expression not understood")
+        g = inner.args[0].generators[0]
+        it, target = g.iter, g.target
+        elt = inner.args[0].elt
+        if dotted(inner.func) == "any" and neg:
+            last = elt
+        elif dotted(inner.func) == "all" and not neg:
+            last = ast.UnaryOp(op=ast.Not(), operand=elt)
+        else:
+            return "%s" % norm(v)[:160], False        # any() without not / not all(): the sense is inverted
+        reject = ast.BoolOp(op=ast.And(), values=list(g.ifs) + [last]) if g.ifs else last
     else:
-        raise AnalysisError("_check_file: neither the loop form nor a single any(...) expression")
-    ctx.ob("FileSet._check_file", okc, "%s" % body, "False only when a forbidden regex matches the file's WHOLE value of that placeholder (fullmatch, as the white list selects whole values); absent placeholders are skipped; True otherwise", node=c.node, func=c)
+        raise AnalysisError("_check_file: neither the loop form nor a single any(...) / all(...) expression")
+    if norm(it) == "%s.items()" % bl and isinstance(target, ast.Tuple) and len(target.elts) == 2 and all(isinstance(e, ast.Name) for e in target.elts):
+        k_, rx_ = [e.id for e in target.elts]
+        rx_e = rx_
+    elif norm(it) in (bl, "%s.keys()" % bl) and isinstance(target, ast.Name):
+        k_, rx_e = target.id, "%s[%s]" % (bl, target.id)
+    else:
+        raise AnalysisError("_check_file: iteration %s over %s not understood" % (norm(target), norm(it)))
+    val_texts = {"%s.get(%s,None)" % (ph, k_): "get", "%s.get(%s)" % (ph, k_): "get", "%s[%s]" % (ph, k_): "item"}
+
+    def ev(e, st):
+        state, m = st
+        txt = str(norm(e)).replace(" ", "")
+        if txt in val_texts:
+            if val_texts[txt] == "item" and state == "absent":
+                raise _Crash("KeyError")
+            return "v" if state == "str" else None
+        if txt in ("%sin%s" % (k_, ph), "%sin%s.keys()" % (k_, ph)):
+            return state != "absent"
+        if txt in ("%snotin%s" % (k_, ph),):
+            return state == "absent"
+        if isinstance(e, ast.Constant) and (e.value is None or isinstance(e.value, bool)):
+            return e.value
+        if isinstance(e, ast.BoolOp):
+            r = None
+            for x in e.values:
+                r = ev(x, st)
+                if (isinstance(e.op, ast.And) and not r) or (isinstance(e.op, ast.Or) and r):
+                    return r
+            return r
+        if isinstance(e, ast.UnaryOp) and isinstance(e.op, ast.Not):
+            return not ev(e.operand, st)
+        if isinstance(e, ast.Compare) and len(e.ops) == 1 and isinstance(e.ops[0], (ast.Is, ast.IsNot)) and norm(e.comparators[0]) == "None":
+            r = ev(e.left, st) is None
+            return r if isinstance(e.ops[0], ast.Is) else not r
+        if isinstance(e, ast.Call) and isinstance(e.func, ast.Attribute) and str(norm(e.func.value)).replace(" ", "") == rx_e and len(e.args) == 1 and not e.keywords \
+                and e.func.attr in ("fullmatch", "match", "search"):
+            a = ev(e.args[0], st)
+            if a is None:
+                raise _Crash("TypeError: the regex applied to None")
+            return m[e.func.attr]
+        if isinstance(e, ast.Call) and dotted(e.func) == "bool" and len(e.args) == 1:
+            return bool(ev(e.args[0], st))
+        raise AnalysisError("_check_file: expression %s outside the modelled class" % norm(e)[:80])
+    wrong = []
+    for state in ("absent", "none", "str"):
+        for full, begin in ((False, False), (False, True), (True, True)):       # fullmatch implies match and search
+            st = (state, {"fullmatch": full, "match": begin, "search": begin})
+            try:
+                got = bool(ev(reject, st))
+            except _Crash as e_:
+                wrong.append("value %s: %s" % (state, e_))
+                continue
+            want = state == "str" and full
+            if got != want:
+                wrong.append("value %s, matches whole=%s beginning=%s: rejected=%s" % (state, full, begin, got))
+    fact = "for %s in %s: rejected iff %s" % (norm(target), norm(it), norm(reject)[:200])
+    if wrong:
+        fact += "  [%s]" % "; ".join(wrong[:3])
+        if any("beginning=True" in w and "whole=False" in w for w in wrong):
+            fact += " [a regex anchored only at the beginning: the value 'NOAA18' is rejected by the forbidden value 'NOAA1']"
+    return fact, not wrong
 
 
 def rule_sort_bundle(ctx):
@@ -529,24 +614,30 @@ def rule_sort_bundle(ctx):
     ctx.ob("FileSet._prepare_find_return.bundle_int", okb, fact, "files[i:i+w] for i in range(0, len(files), w): stride == width, nothing dropped or repeated", node=ge[0]["node"] if ge else f.node, func=f)
     none_arm = [s for s in f.body if isinstance(s, ast.If) and norm(s.test) == "%s is None" % bs]
     okn = bool(none_arm) and [norm(s) for s in none_arm[0].body] == ["yield from %s" % fi, "return"]
-    ts = [s for s in walk_no_nested(f.node) if isinstance(s, ast.Assign) and norm(s.targets[0]) == "time_series"]
+    bflow = Flow(f)
+    sers = [c_ for c_ in calls_in(f.node, "Series") if (dotted(c_.func) or "").split(".")[-1] == "Series"]
     okts = False
-    if ts and isinstance(ts[0].value, ast.Call) and dotted(ts[0].value.func) == "pd.Series":
-        tc = ts[0].value
+    ts_txt = None
+    if len(sers) == 1:
+        tc = sers[0]
+        ts_txt = str(norm(tc))
         data = tc.args[0] if tc.args else next((k_.value for k_ in tc.keywords if k_.arg == "data"), None)
         index = tc.args[1] if len(tc.args) > 1 else next((k_.value for k_ in tc.keywords if k_.arg == "index"), None)
-        okts = data is not None and index is not None and norm(data) == "files" and norm(index) == "[file.times[0] for file in files]"
-    # grouping by time frequency needs a DatetimeIndex: an empty selection has none (pandas raises TypeError) - it must be answered before
-    if ts:
-        bflow = Flow(f)
-        grp = [c_ for c_ in calls_in(f.node, ("groupby", "resample", "Grouper"))]
-        tsn = bflow.cfg.nodes(ts[0])
-        eg = [st_ for st_ in bflow.stmts if isinstance(st_, ast.If) and emptiness_test_kind_(st_.test) and any(isinstance(x, ast.Return) for x in st_.body)
-              and all(bflow.cfg.dominated_by(n_, set(bflow.cfg.nodes(st_))) for n_ in tsn)]
-        ctx.ob("FileSet._prepare_find_return.bundle_empty", bool(eg), "emptiness guards before the time series is grouped: %s" % ([str(norm(g_.test)) for g_ in eg] or "none"),
-               "an empty selection yields no bundle (find(bundle='1h', no_files_error=False) on a period without files raised TypeError: Only valid with DatetimeIndex)",
-               node=ts[0], func=f, witness=None if eg else {"find": "bundle='1h', no_files_error=False, period without files", "raises": "TypeError"})
-    ctx.ob("FileSet._prepare_find_return.bundle_other", okn and okts, "no bundle: %s; by frequency: %s" % ([norm(s) for s in none_arm[0].body] if none_arm else None, norm(ts[0].value) if ts else None),
+        if isinstance(data, ast.Name) and index is not None:
+            src = bflow.resolve(data, at=tc, depth=1)
+            okts = str(norm(src)) == "list(%s)" % fi and norm(index) == "[file.times[0] for file in %s]" % data.id
+            # grouping by time frequency needs a DatetimeIndex: an empty selection has none (pandas raises TypeError) - with nothing
+            # selected the series is not even built
+            N = data.id
+            empty_asm = {"not %s" % N: True, N: False, "len(%s) == 0" % N: True, "not len(%s)" % N: True, "len(%s)" % N: False, "len(%s) > 0" % N: False}
+            dead = not bflow.live_under(enclosing_stmt(tc), empty_asm)
+            ctx.ob("FileSet._prepare_find_return.bundle_empty", dead, "the time series is built under an emptiness guard of %s: %s" % (N, dead),
+                   "an empty selection yields no bundle (find(bundle='1h', no_files_error=False) on a period without files raised TypeError: Only valid with DatetimeIndex)",
+                   node=tc, func=f, witness=None if dead else {"find": "bundle='1h', no_files_error=False, period without files", "raises": "TypeError"})
+    elif not sers:
+        raise AnalysisError("_prepare_find_return: the time series used for bundling by frequency was not found")
+    ts = [sers[0]] if sers else []
+    ctx.ob("FileSet._prepare_find_return.bundle_other", okn and okts, "no bundle: %s; by frequency: %s" % ([norm(s) for s in none_arm[0].body] if none_arm else None, ts_txt),
            "no bundle -> the stream itself; by frequency -> groups of the same list indexed by start time", node=f.node, func=f)
 
 
